@@ -110,6 +110,33 @@ Definition run_eval : dispatcher := fun op args =>
                 | _, _ => Some sx_bad end
     | _ => Some sx_bad
     end
+  (* (l1-polls "op" sa (a limbs) sb (b limbs)) -> ("some" n) | ("none") *)
+  else if opeq op "l1-polls" then
+    match args with
+    | [XS o; XA sa; XL a; XA sb; XL b] =>
+      match as_Ns a, as_Ns b with
+      | Some la, Some lb =>
+        let fa := negb (Z.eqb sa 0) in
+        let fb := negb (Z.eqb sb 0) in
+        if opeq o "mul" then Some (sx_opt sx_N (Some (l1_mul_polls fa la fb lb)))
+        else if opeq o "lshift" then Some (sx_opt sx_N (Some (l1_lshift_polls fa la)))
+        else if opeq o "rshift" then Some (sx_opt sx_N (Some (l1_rshift_polls fa la)))
+        else if opeq o "divmod" then Some (sx_opt sx_N (l1_divmod_polls fa la fb lb))
+        else Some sx_bad
+      | _, _ => Some sx_bad
+      end
+    | _ => Some sx_bad
+    end
+  else if opeq op "polls-digits" then
+    match args with
+    | [n] => match as_N n with Some n' => Some (sx_N (digits_polls_of n')) | None => Some sx_bad end
+    | _ => Some sx_bad
+    end
+  else if opeq op "polls-recurring" then
+    match args with
+    | [n] => match as_N n with Some n' => Some (sx_N (recurring_polls_of n')) | None => Some sx_bad end
+    | _ => Some sx_bad
+    end
   else None.
 
 Definition run_eval_line : list N -> list N := run_with run_eval.
